@@ -1,4 +1,190 @@
-import Bifrost.Lemmas.SigBase
-/-! Session-side invariants (C20, C22). -/
+import Bifrost.Model.Signaling
+/-! Session-side base lemmas (C20, C22): heap get/set lemmas, frame lemmas. -/
 namespace Bifrost
+namespace SigSess
+open Bifrost.Sig
+
+/-! ### generic list lemmas -/
+
+theorem find?_map_upd {α : Type} (key : α → Nat) (l : List α) (t : α) (id : Nat) :
+    (l.map fun x => if key x = key t then t else x).find? (fun x => decide (key x = id)) =
+      if id = key t then (if (l.find? (fun x => decide (key x = id))).isSome then some t else none)
+      else l.find? (fun x => decide (key x = id)) := by
+  induction l with
+  | nil => simp
+  | cons a l ih =>
+    simp only [List.map_cons, List.find?_cons]
+    by_cases h1 : key a = key t
+    · by_cases h2 : id = key t
+      · subst h2; simp [h1]
+      · have h3 : ¬ key t = id := fun h => h2 h.symm
+        simp [h1, h2, h3, ih]
+    · by_cases h2 : key a = id
+      · have : ¬ id = key t := fun h => h1 (h2.trans h)
+        simp [h2, this]
+      · simp [h1, h2, ih]
+
+theorem find?_key_eq {α : Type} (key : α → Nat) (l : List α) (id : Nat) (x : α)
+    (h : l.find? (fun x => decide (key x = id)) = some x) : key x = id ∧ x ∈ l := by
+  have h1 := List.find?_some h
+  have h2 := List.mem_of_find?_eq_some h
+  simp at h1
+  exact ⟨h1, h2⟩
+
+theorem find?_of_nodup {α : Type} (key : α → Nat) (l : List α) (c : α)
+    (hn : (l.map key).Nodup) (hc : c ∈ l) : l.find? (fun x => decide (key x = key c)) = some c := by
+  induction l with
+  | nil => simp at hc
+  | cons a l ih =>
+    simp only [List.map_cons, List.nodup_cons] at hn
+    simp only [List.find?_cons]
+    rcases List.mem_cons.1 hc with h | h
+    · subst h; simp
+    · have : key a ≠ key c := by
+        intro he
+        apply hn.1
+        rw [he]
+        exact List.mem_map_of_mem h
+      simp [this, ih hn.2 h]
+
+/-! ### get/set -/
+
+theorem getSess_sid {s : State} {id : Nat} {t : Sess} (h : getSess s id = some t) : t.sid = id :=
+  (find?_key_eq Sess.sid _ _ _ h).1
+
+theorem getSCall_id {s : State} {id : Nat} {c : SCall} (h : getSCall s id = some c) : c.id = id :=
+  (find?_key_eq SCall.id _ _ _ h).1
+
+theorem getSCall_mem {s : State} {id : Nat} {c : SCall} (h : getSCall s id = some c) : c ∈ s.scalls :=
+  (find?_key_eq SCall.id _ _ _ h).2
+
+theorem getSess_setSess (s : State) (t : Sess) (id : Nat) :
+    getSess (setSess s t) id =
+      if id = t.sid then (if (getSess s id).isSome then some t else none) else getSess s id :=
+  find?_map_upd Sess.sid s.sesss t id
+
+theorem getSCall_setSCall (s : State) (c : SCall) (id : Nat) :
+    getSCall (setSCall s c) id =
+      if id = c.id then (if (getSCall s id).isSome then some c else none) else getSCall s id :=
+  find?_map_upd SCall.id s.scalls c id
+
+theorem getSess_setSess_of {s : State} {t t' : Sess} {sid : Nat} (h : getSess s sid = some t)
+    (ht' : t'.sid = sid) (id : Nat) :
+    getSess (setSess s t') id = if id = sid then some t' else getSess s id := by
+  rw [getSess_setSess]; subst ht'
+  by_cases h1 : id = t'.sid
+  · subst h1; simp [h]
+  · simp [h1]
+
+theorem getSCall_setSCall_of {s : State} {c c' : SCall} {cid : Nat} (h : getSCall s cid = some c)
+    (hc' : c'.id = cid) (id : Nat) :
+    getSCall (setSCall s c') id = if id = cid then some c' else getSCall s id := by
+  rw [getSCall_setSCall]; subst hc'
+  by_cases h1 : id = c'.id
+  · subst h1; simp [h]
+  · simp [h1]
+
+theorem getSCall_setSCall_self {s : State} {c c' : SCall} (h : getSCall s c'.id = some c) :
+    getSCall (setSCall s c') c'.id = some c' := by
+  rw [getSCall_setSCall, h]; simp
+
+/-! ### frame lemmas: which components each primitive touches -/
+
+@[simp] theorem setTkr_sesss (s t) : (setTkr s t).sesss = s.sesss := rfl
+@[simp] theorem setTkr_sessMap (s t) : (setTkr s t).sessMap = s.sessMap := rfl
+@[simp] theorem setTkr_scalls (s t) : (setTkr s t).scalls = s.scalls := rfl
+@[simp] theorem setTkr_accepted (s t) : (setTkr s t).accepted = s.accepted := rfl
+@[simp] theorem setTkr_next (s t) : (setTkr s t).next = s.next := rfl
+
+@[simp] theorem setLCall_sesss (s t) : (setLCall s t).sesss = s.sesss := rfl
+@[simp] theorem setLCall_sessMap (s t) : (setLCall s t).sessMap = s.sessMap := rfl
+@[simp] theorem setLCall_scalls (s t) : (setLCall s t).scalls = s.scalls := rfl
+@[simp] theorem setLCall_accepted (s t) : (setLCall s t).accepted = s.accepted := rfl
+@[simp] theorem setLCall_next (s t) : (setLCall s t).next = s.next := rfl
+
+@[simp] theorem setSess_sessMap (s t) : (setSess s t).sessMap = s.sessMap := rfl
+@[simp] theorem setSess_scalls (s t) : (setSess s t).scalls = s.scalls := rfl
+@[simp] theorem setSess_accepted (s t) : (setSess s t).accepted = s.accepted := rfl
+@[simp] theorem setSess_next (s t) : (setSess s t).next = s.next := rfl
+
+@[simp] theorem setSCall_sesss (s t) : (setSCall s t).sesss = s.sesss := rfl
+@[simp] theorem setSCall_sessMap (s t) : (setSCall s t).sessMap = s.sessMap := rfl
+@[simp] theorem setSCall_accepted (s t) : (setSCall s t).accepted = s.accepted := rfl
+@[simp] theorem setSCall_next (s t) : (setSCall s t).next = s.next := rfl
+
+@[simp] theorem getSCall_setSess (s t id) : getSCall (setSess s t) id = getSCall s id := rfl
+@[simp] theorem getSess_setSCall (s t id) : getSess (setSCall s t) id = getSess s id := rfl
+@[simp] theorem getSess_setTkr (s t id) : getSess (setTkr s t) id = getSess s id := rfl
+@[simp] theorem getSCall_setTkr (s t id) : getSCall (setTkr s t) id = getSCall s id := rfl
+@[simp] theorem getSess_setLCall (s t id) : getSess (setLCall s t) id = getSess s id := rfl
+@[simp] theorem getSCall_setLCall (s t id) : getSCall (setLCall s t) id = getSCall s id := rfl
+
+/-- The session-relevant part of the state is unchanged (fresh-id counter may grow). -/
+structure SessEq (s s' : State) : Prop where
+  sesss : s'.sesss = s.sesss
+  sessMap : s'.sessMap = s.sessMap
+  scalls : s'.scalls = s.scalls
+  accepted : s'.accepted = s.accepted
+  next : s.next ≤ s'.next
+
+theorem SessEq.refl (s : State) : SessEq s s := ⟨rfl, rfl, rfl, rfl, Nat.le_refl _⟩
+
+theorem SessEq.trans {a b c : State} (h1 : SessEq a b) (h2 : SessEq b c) : SessEq a c :=
+  ⟨h2.sesss.trans h1.sesss, h2.sessMap.trans h1.sessMap, h2.scalls.trans h1.scalls,
+   h2.accepted.trans h1.accepted, Nat.le_trans h1.next h2.next⟩
+
+theorem SessEq.getSess {s s' : State} (h : SessEq s s') (id : Nat) : getSess s' id = getSess s id := by
+  simp [Sig.getSess, h.sesss]
+
+theorem SessEq.getSCall {s s' : State} (h : SessEq s s') (id : Nat) : getSCall s' id = getSCall s id := by
+  simp [Sig.getSCall, h.scalls]
+
+theorem SessEq_setTkr (s t) : SessEq s (setTkr s t) := ⟨rfl, rfl, rfl, rfl, Nat.le_refl _⟩
+theorem SessEq_setLCall (s t) : SessEq s (setLCall s t) := ⟨rfl, rfl, rfl, rfl, Nat.le_refl _⟩
+
+theorem SessEq_getPeer (s pid) : SessEq s (getPeer s pid).1 := by
+  unfold getPeer
+  split
+  · split <;> exact SessEq.refl _
+  · exact ⟨rfl, rfl, rfl, rfl, Nat.le_succ _⟩
+
+theorem SessEq_maybeReleasePeer (s pid) : SessEq s (maybeReleasePeer s pid) := by
+  unfold maybeReleasePeer
+  split
+  · exact SessEq.refl _
+  · split
+    · exact SessEq.refl _
+    · split
+      · exact SessEq.refl _
+      · exact ⟨rfl, rfl, rfl, rfl, Nat.le_refl _⟩
+
+theorem SessEq_lReg (s call pid) : SessEq s (lReg s call pid) := by
+  unfold lReg
+  have h := SessEq_getPeer s pid
+  exact ⟨h.sesss, h.sessMap, h.scalls, h.accepted, h.next⟩
+
+theorem SessEq_lLoop (s call w n) : SessEq s ((lLoop s call w n).getD s) := by
+  simp only [lLoop]
+  repeat' split
+  all_goals first | exact SessEq.refl _ | exact SessEq_setLCall _ _
+
+theorem SessEq_lUsurped (s call) : SessEq s ((lUsurped s call).getD s) := by
+  unfold lUsurped
+  repeat' split
+  all_goals first | exact SessEq.refl _ | exact SessEq_setLCall _ _
+
+theorem SessEq_lTx (s call r) : SessEq s ((lTx s call r).getD s) := by
+  unfold lTx
+  repeat' split
+  all_goals first | exact SessEq.refl _ | exact SessEq_setLCall _ _
+
+theorem SessEq_lEnd (s call) : SessEq s (lEnd s call) := by
+  simp only [lEnd]
+  repeat' split
+  all_goals first
+    | exact SessEq.refl _
+    | exact SessEq_setLCall _ _
+    | exact (SessEq_setLCall _ _).trans ((SessEq_setTkr _ _).trans (SessEq_maybeReleasePeer _ _))
+
+end SigSess
 end Bifrost
